@@ -440,6 +440,12 @@ func boostEnv(p Property, q *Plan) []string {
 	return nil
 }
 
+// minimiseAttempter: how many attempts a candidate gets while minimising
+// (default: ReplayAttempts).
+type minimiseAttempter interface {
+	MinimiseAttempts(p *Plan) int
+}
+
 // replayAttempter: how many attempts a plan may need to reproduce (1 = exact).
 type replayAttempter interface {
 	ReplayAttempts(p *Plan) int
@@ -827,13 +833,35 @@ func minimise(p Property, plan *Plan, res *Result) (*Plan, *Result, int) {
 	// burst) is given several attempts to show the violation again.
 	run := func(q *Plan) *Result {
 		n := 1
-		if ra, ok := p.(replayAttempter); ok {
+		if ma, ok := p.(minimiseAttempter); ok {
+			n = max(1, ma.MinimiseAttempts(q))
+		} else if ra, ok := p.(replayAttempter); ok {
 			n = max(1, ra.ReplayAttempts(q))
 		}
 		var r *Result
 		for i := 0; i < n; i++ {
 			if r = once(q); r.Verdict == "violation" {
 				break
+			}
+		}
+		return r
+	}
+	// Under the race detector a verdict has a residue of chance even for a
+	// fixed schedule (DESIGN §9: fmt, reflect and the allocator synchronise
+	// through per-P pools inside the runtime, and whether such an edge happens
+	// to order the two racing accesses depends on which P ran which goroutine).
+	// A smaller plan is therefore adopted only if it shows the violation three
+	// times out of three, so that minimisation cannot trade an always-failing
+	// plan for one that fails now and then.
+	stable := 1
+	if p.Race() {
+		stable = 3
+	}
+	runStable := func(q *Plan) *Result {
+		var r *Result
+		for i := 0; i < stable; i++ {
+			if r = run(q); r.Verdict != "violation" {
+				return r
 			}
 		}
 		return r
@@ -851,14 +879,14 @@ func minimise(p Property, plan *Plan, res *Result) (*Plan, *Result, int) {
 		progressed := false
 		for _, cand := range p.Shrink(cur) {
 			attempts++
-			r := run(cand)
+			r := runStable(cand)
 			if r.Verdict == "violation" && r.Class == curRes.Class && r.Site == curRes.Site {
 				cur, curRes = cand, r
 				// the worker's narrowed plan (single cut / bit / write index / case)
 				// is adopted only if it reproduces on its own: the violation may
 				// need the cases that precede it within the plan
 				if r.Narrow != nil {
-					if r2 := run(r.Narrow); r2.Verdict == "violation" && r2.Class == curRes.Class && r2.Site == curRes.Site {
+					if r2 := runStable(r.Narrow); r2.Verdict == "violation" && r2.Class == curRes.Class && r2.Site == curRes.Site {
 						cur, curRes = r.Narrow, r2
 					}
 				}
